@@ -98,6 +98,8 @@ def raised_in_library(exc):
     home = os.path.realpath(HOME)
     last_ours = None
     for i, fr in enumerate(tb):
+        if fr.filename.startswith("<"):
+            continue  # frozen / built-in frames ("<frozen os>") are not files: realpath would place them under the cwd
         fn = os.path.realpath(fr.filename)
         if fn.startswith(REPO + os.sep):
             last_ours = "lib"
